@@ -109,6 +109,9 @@ func (fc *FnCtx) specialSync(ins ssa.Instruction, callee *ssa.Function, cc *ssa.
 		pre := fc.cur.clone()
 		st := T.Underlying().(*types.Struct)
 		for _, p := range li.Protects {
+			if li.NoHavoc {
+				break
+			}
 			if i := strings.Index(p, "."); i >= 0 {
 				for f := 0; f < st.NumFields(); f++ {
 					if st.Field(f).Name() == p[i+1:] {
